@@ -167,6 +167,19 @@ CLAIMED = {
             'retriable TimeoutError after stop/shutdown, and no request may block forever (structural deadlock detection).',
             'same scheduler trusted base as C04; handlers are called directly, one client per generator at a time.',
             '§2.2, §3 C15'),
+    'C20': ('exploration',
+            'model-based histories for the heartbeat registry (parked/late replies on a fake transport, harness clock); ownership histories of several pools over generated thread schedules on the deterministic scheduler; pool-level operations on the fake transport',
+            '(a) register/refresh/unregister events with non-monotone times, clock advances across the threshold, liveness polls and '
+            'late or failed heartbeat replies (parked by the transport and released later) are generated against a model addr -> '
+            'last | DEAD: a dead worker is never alive again without register, recorded heartbeats never decrease under refresh, '
+            'is_alive is exactly now - last < threshold; concurrent registry operations from 2..3 virtual threads must end in a '
+            'state allowed by some linearisation. (b) 2..3 WorkerPools over the same Worker singletons run generated acquire_all / '
+            'next_idle_worker / acquire_by / release_all / release operations, one virtual thread per pool, under generated schedules; '
+            'after every operation a pool\'s acquired workers must still be locked by it and by nobody else. (c) call_and_wait, run '
+            'and as_completed (with failing tasks) must leave no worker acquired when they return or raise.',
+            'harness clock for heartbeat staleness; scheduler trusted base as C04; in-process fake transport; (c) runs on real threads '
+            'with a 60 s watchdog and reruns before reporting.',
+            '§3 C20'),
 }
 
 PENDING_REASON = 'check not built yet in this session (work in progress; see DESIGN.md §9 build order) - not claimed until its check exists'
